@@ -32,7 +32,9 @@ Definition filter_env (v : value) : list ctx :=
 Definition dom_eval (ev : expr -> value) (d : dom) : option (list value) :=
   match d with
   | DList e => Some (dom_values (ev e))
-  | DRange lo hi => match ev lo, ev hi with VNum a, VNum b => Some (range_values a b) | _, _ => None end
+  | DRange lo hi => match ev lo, ev hi with
+                    | VNum a, VNum b => match num_int a, num_int b with Some x, Some y => Some (range_values x y) | _, _ => None end
+                    | _, _ => None end
   end.
 Definition dom_poison (ev : expr -> value) (d : dom) : bool :=
   match d with DList e => false | DRange lo hi => poison (ev lo) || poison (ev hi) end.
